@@ -515,6 +515,16 @@ UNITS["v_target_ops"] = dict(
                  ("C17.exists.no_write", "exists() performs no target write or deletion", "query.target is External || query.target is Internal ==> final(ctx).target.ops@ == old(ctx).target.ops@"),
              ],
              safety_id="C17.exists.safety"),
+        dict(id="unnest", file="src/stdlib/unnest.rs", impl=None, name="unnest",
+             orig_sig="fn unnest(path: &expression::Query, ctx: &mut Context) -> Resolved",
+             sig="pub fn unnest(path: &Query, ctx: &mut Context) -> (r: Resolved)",
+             rewrites=[dict(**{"from": "expression::Target::", "to": "QueryTarget::", "why": "prelude name of query::Target"})],
+             ensures=[
+                 ("C17.unnest.read_fault_is_missing", "unnest of an external path treats a rejected (or empty) read of the root exactly like a null root: it never panics",
+                  "path.target is External ==> r == spec_unnest_root(read_as_missing(old(ctx).target.spec_get(OwnedTargetPath::root_spec(path.target->External_0))), path.path)"),
+                 ("C17.unnest.no_write", "unnest performs no target write or deletion", "path.target is External || path.target is Internal ==> final(ctx).target.ops@ == old(ctx).target.ops@"),
+             ],
+             safety_id="C17.unnest.safety", safety_text="no expect/unwrap can fail whatever the target answers"),
         dict(id="target_insert", file=EXPR + "assignment.rs", impl="impl Target", name="insert",
              orig_sig="fn insert(&self, value: Value, ctx: &mut Context)",
              wrap=("impl ATarget {", "}"), sig="pub fn insert(&self, value: Value, ctx: &mut Context)",
